@@ -282,7 +282,10 @@ def replay_by_search(model, obligation):
     n, d, failures, samples = bounded_status()
     if failures:
         return True, failures[0]["witness"], failures[0]["class"]
-    return False, {"model": model, "searched": n}, None
+    n2, fail = status_history_search(3)
+    if fail:
+        return True, dict(fail["witness"], detail=fail["detail"]), fail["class"]
+    return False, {"model": model, "searched": n + n2}, None
 
 
 # ---------------------------------------------------------------------------- P3 job-id separation (lemma over the id templates)
